@@ -17,6 +17,12 @@ BUILT={
  "C03":("bounded-exhaustive enumeration; all adversarial witnesses explored on the reference Script machine",
         "For every sane descriptor up to the node bound and every world in which the non-malleable satisfier succeeds, ALL witnesses over the third-party alphabet are explored depth-first on every script of the output (every tap leaf) under standardness flags; the solution set must be exactly the original. A positive control on non-sane scripts shows the search does find alternative witnesses.",
         "3 C03"),
+ "C05":("complete enumeration of the finite type domain against transcribed specification tables",
+        "Every unary typing rule on all 960 child types, every binary rule and thresh(k,2) on all 960^2 pairs, and_or on the cube of reachable types plus correctness/malleability cubes (thorough: all 960^3), wider thresholds over reachable child types: accept/reject equality, never-stronger on inhabitable types, exact equality on reachable types minus a printed deviation list; Type::type_check dispatch of every Terminal variant.",
+        "3 C05"),
+ "C06":("bounded-exhaustive fragment enumeration; all input stacks explored on the reference Script machine",
+        "Every well-typed term of every base type up to the node bound (Segwitv0, Legacy, Tap) is executed alone on the reference Script machine over ALL input stacks from a finite alphabet (lazily materialised, consensus and standard flags); z/o/n/u/d/f/s and the B/V/W stack-shape contracts of the library type (and of the specification-table type) are checked on every complete path.",
+        "3 C06"),
  "C07":("bounded-exhaustive enumeration; policy truth vs witness existence by exhaustive witness search",
         "For every liftable descriptor up to the node bound (all wrappings, duplicate keys, 2/3-leaf tap trees) and every world, the reference evaluator's truth value of lift(d) is compared in both directions with the existence of a witness found by exhaustive exploration of the reference Script machine over the caller's alphabet.",
         "3 C07"),
@@ -26,6 +32,9 @@ BUILT={
  "C09":("bounded-exhaustive enumeration; measured execution traces vs static figures",
         "Same enumeration as C01; every satisfaction the library returns (all asset subsets, both modes, both production paths) is measured on the real data and on the reference machine's trace and compared with script_size, pk_cost, max_satisfaction_*, sat_data, max_weight_to_satisfy and the plan's announced sizes.",
         "3 C09"),
+ "C17":("bounded-exhaustive enumeration; plan vs satisfier differential plus lock-necessity transactions on the reference Script machine",
+        "Every descriptor of the C01 enumeration x all worlds x CanSign variants x both plan modes: into_plan succeeds iff the satisfier holding exactly those assets succeeds, Plan::satisfy equals get_satisfaction, the spend validates with exactly the reported locks and is rejected by the reference Script machine for every weaker lock (value-1, removed, other unit, final sequence).",
+        "3 C17"),
  "C19":("bounded-exhaustive all-pairs/all-triples exploration over the BFS term universe",
         "Every ordered pair (and every triple of a slice) of all well-typed terms up to the node bound plus their k/arity/leaf neighbours is compared through ==, cmp and hash against the harness's structural identity; descriptors, tap trees and policies likewise over an enumerated family. Exhaustive within the bound, nothing sampled.",
         "3 C19"),
